@@ -19,13 +19,14 @@ def register(reg, prog):
                                              '_late_deregister': BOOL, '_cancellation_callback': CALLABLE})
     # ghost state of an asyncio future: whether it is completed and with which value.  Futures used as trigger carry
     # Optional[Message]
-    reg.classes['FutureI'].fields.update({'g_done': BOOL, 'g_value': Opt(MSG)})
+    reg.classes['FutureI'].fields.update({'g_done': BOOL, 'g_cancelled': BOOL, 'g_value': Opt(MSG)})
     reg.assume('A-FUTURE: an asyncio.Future is a cell (done, value); set_result on a completed future raises '
                'InvalidStateError (checked in the C08 contracts), result() of a completed future returns the value, '
                'awaiting a future returns only after it is completed')
 
     def strict(ex):
-        return ex.cur_contract is not None and 'C08' in ex.cur_contract.properties
+        # the completed-future discipline is checked in the C08 contracts and wherever a contract asks for it (`strict_futures`)
+        return ex.cur_contract is not None and ('C08' in ex.cur_contract.properties or getattr(ex.cur_contract, 'strict_futures', False))
 
     def create_future(ex, st, args, kw, node):
         f = ex.new_object(st, 'FutureI')
@@ -57,6 +58,29 @@ def register(reg, prog):
             ex.write_field(st, f, 'g_value', Opt(MSG), ex.fresh_val(st, Opt(MSG), 'futval'))
         return outs + [(st, VNone())]
     reg.externals['FutureI.set_result'] = fut_set_result
+
+    def fut_set_exception(ex, st, args, kw, node):
+        f = args[0]
+        outs = []
+        if strict(ex):
+            was = ex.read_field(st, f, 'g_done', BOOL)
+            bad, st = ex.branch(st, was.t)
+            if bad is not None:
+                ex.raise_exc(bad, 'asyncio:InvalidStateError')
+                outs.append((bad, None))
+            if st is None:
+                return outs
+            ex.write_field(st, f, 'g_done', BOOL, VBool(z3.BoolVal(True)))
+        st.log.append(('set_exception',) + tuple(args))
+        return outs + [(st, VNone())]
+    reg.externals['FutureI.set_exception'] = fut_set_exception
+
+    def fut_cancelled(ex, st, args, kw, node):
+        # a cancelled future is a completed one
+        c = ex.read_field(st, args[0], 'g_cancelled', BOOL)
+        st.fact(z3.Implies(c.t, ex.read_field(st, args[0], 'g_done', BOOL).t))
+        return [(st, c)]
+    reg.externals['FutureI.cancelled'] = fut_cancelled
 
     def fut_result(ex, st, args, kw, node):
         f = args[0]
